@@ -15,12 +15,19 @@ out += ['', '## 18. Seeded changes (independent sub-agents) and which checks cat
         'and comes with a demonstration program (exit 0 unpatched, 1 patched). Confirmed here in a scratch worktree (`tools/seed_eval.sh`), then the',
         'checks were run with `VERIF_REPO=<worktree>`. "strengthened" = the check missed it at first and was extended (what was added is in the',
         'commit log and in §0); the result column is the state after strengthening.', '',
-        '| seed | change | needs | checks run (exit code: 1 = caught) |', '|---|---|---|---|']
+        'The last column is the re-run of every kept change against the final /repo HEAD in a fresh worktree (`tools/reeval_seeds.sh`, `seeded/<id>/final.json`);',
+        '"n/a" there = the patch no longer applies because a later `fix:` commit changed the same lines.', '',
+        '| seed | change | needs | when first evaluated (exit 1 = caught) | at the final HEAD |', '|---|---|---|---|---|']
 for p in sorted(glob.glob(V + '/seeded/*/meta.json')):
     m = json.load(open(p))
     sid = os.path.basename(os.path.dirname(p))
-    out.append('| %s | %s | %s | %s |' % (sid, m.get('summary', '').replace('|', '/')[:260], m.get('needs', '').replace('|', '/')[:200],
-                                         ', '.join('%s: %s' % kv for kv in sorted(m.get('checks_run', {}).items())) + (' — ' + m['note'] if m.get('note') else '')))
+    fin = ''
+    fp = os.path.join(os.path.dirname(p), 'final.json')
+    if os.path.exists(fp):
+        f = json.load(open(fp))
+        fin = 'n/a' if not f.get('applies') else ('caught: ' if f.get('caught') else 'MISSED: ') + ', '.join('%s=%d' % (c, v['exit']) for c, v in sorted(f['checks'].items()))
+    out.append('| %s | %s | %s | %s | %s |' % (sid, m.get('summary', '').replace('|', '/')[:260], m.get('needs', '').replace('|', '/')[:200],
+                                              ', '.join('%s: %s' % kv for kv in sorted(m.get('checks_run', {}).items())) + (' — ' + m['note'] if m.get('note') else ''), fin))
 txt = open(V + '/DESIGN.md').read()
 blk = '<!-- GENERATED:BEGIN -->\n' + '\n'.join(out) + '\n<!-- GENERATED:END -->\n'
 if '<!-- GENERATED:BEGIN -->' in txt:
